@@ -628,6 +628,22 @@ func ruleHeapIterator(r *Run) {
 	}
 	var cNeg, cRoom *ssa.BinOp
 	var cLess *ssa.Call
+	// a field of the iterator, read directly or handed to a helper as an argument (offer(s, i.limit, i.less))
+	hgrp := []*ssa.Function{fn}
+	for h := range helpers {
+		hgrp = append(hgrp, h)
+	}
+	loadOfField := func(v ssa.Value) (string, ssa.Value, bool) {
+		if f, b, ok := loadOfField(v); ok {
+			return f, b, true
+		}
+		if q, ok := spillParam(unspill(v)).(*ssa.Parameter); ok && q.Parent() != fn {
+			if ov := originValueIn(q, hgrp); ov != nil && ov != ssa.Value(q) {
+				return loadOfField(ov)
+			}
+		}
+		return "", nil, false
+	}
 	scan := func(in ssa.Instruction) {
 		switch x := in.(type) {
 		case *ssa.BinOp:
